@@ -136,6 +136,9 @@ func RunC17(t *testing.T, seed uint64) *Result {
 		return u
 	}
 	defer func() { rand.SimUint64 = prev }()
+	// select statements with several ready cases choose by the run's seed, as in RunPlan
+	simSelectState = NewRng(seed, "select").U64() | 1
+	defer func() { simSelectState = 0 }()
 	judged := 0
 	synctest.Test(t, func(t *testing.T) {
 		start := time.Now()
